@@ -166,6 +166,44 @@ def search(res, tier, boost=False):
                     res.violation('C01:entry-inaccurate:quadrature-path:ancestor-shared-end',
                                   dict(curve=cname, test=describe(te), trial=describe(tr), levels_apart=k, computed=float(vq),
                                        closed_form=float(vx), scaled_error=err))
+    # far pairs inside the aspect bound: small panels (h_x = 2^-3 ... 2^-5, h_t = h_x^2 / 32 ... h_x^2 / 8) on one side, several panel
+    # lengths apart, the test element tens to hundreds of slabs later - entries of 1e-8 ... 1e-4 of the diagonal scale that
+    # a "negligible" shortcut must not drop; both paths against the independent reference
+    try:
+        for cname in ('UnitSquare',) if tier == 'quick' and not boost else ('UnitSquare', 'LShape', 'UnitInterval'):
+            gamma = make_curve(cname)
+            with contextlib.redirect_stdout(io.StringIO()):
+                ops = RealOps(gamma, MeshParametrized(gamma))
+            base = 2 if len(gamma.pw_gamma) == 1 else 0
+            for it in range(6 if tier == 'quick' else 30):
+                pc = rng.randrange(len(gamma.pw_gamma))
+                l = base + rng.randint(3, 5)
+                n = 2**(l - base)
+                m1 = rng.randrange(n)
+                far = [m for m in range(n) if abs(m - m1) >= 4]
+                if not far:
+                    continue
+                m2 = rng.choice(far)
+                xt, xr = addr_interval(gamma, (pc, l, m1)), addr_interval(gamma, (pc, l, m2))
+                hx = float(xt[1] - xt[0])
+                ht = 2.0**round(math.log2(hx * hx / rng.choice([32, 16, 8])))
+                gap = abs(float(xt[0] - xr[0])) - hx
+                K = max(2, int(gap * gap / (4 * rng.uniform(8, 18)) / ht))      # lag with exp(-gap^2 / (4 lag)) = e^-8 ... e^-18
+                te, tr = StubElem((K * ht, (K + 1) * ht), xt, gamma.pw_gamma[pc]), StubElem((0.0, ht * rng.choice([1, 2])), xr, gamma.pw_gamma[pc])
+                if not (ok_aspect(te) and ok_aspect(tr)):
+                    continue
+                ref, sc = ops.ref(te, tr), ops.scale(te, tr)
+                for pw in (False, True):
+                    v = ops.SL[pw].bilform(tr, te)
+                    err = abs(v - ref) / sc
+                    worst = max(worst, err)
+                    res.count(('far-pair', cname, pc, l, m1, m2, K, pw), ref > 1e-9 * sc)
+                    if err > 1e-7:
+                        res.violation('C01:entry-inaccurate:%s:far-pair' % ('exact-path' if pw else 'quadrature-path'),
+                                      dict(curve=cname, pw_exact=pw, test=describe(te), trial=describe(tr), slabs_apart=K, computed=float(v),
+                                           reference=ref, reference_over_scale=ref / sc, scaled_error=err, aspect=[aspect(te), aspect(tr)]))
+    except AssertionError as exc:
+        res.notes['far_pairs_skipped'] = repr(exc)
     # one long-lived closed-form operator over ALL ordered same-side pairs of a locally refined side (elements of two space
     # levels at every position, equal or touching time slabs): whatever the operator keeps between calls must not change an
     # entry.  Each entry is compared with a freshly created operator; when the two differ the independent graded reference
